@@ -7,6 +7,7 @@ import (
 	"context"
 	"crypto/hmac"
 	"crypto/sha256"
+	"errors"
 	"fmt"
 	"time"
 
@@ -175,9 +176,15 @@ func validateServerLedActivationToken(
 		return nil, fmt.Errorf("(%s) error deriving key id: %w", op, err)
 	}
 
-	// Verify that we don't have an authorization already for the given key ID
-	if keyCheck, _ := types.LoadNodeInformation(ctx, storage, keyId, opt...); keyCheck != nil {
+	// Verify that we don't have an authorization already for the given key ID.
+	// Only a not-found result means there is none; any other failure to load
+	// (e.g. a record that cannot be unwrapped) must not be taken as absence.
+	keyCheck, err := types.LoadNodeInformation(ctx, storage, keyId, opt...)
+	switch {
+	case err == nil || keyCheck != nil:
 		return nil, fmt.Errorf("(%s) node cannot be authorized as there is an existing node", op)
+	case !errors.Is(err, nodeenrollment.ErrNotFound):
+		return nil, fmt.Errorf("(%s) error checking for existing node: %w", op, err)
 	}
 
 	// Authorize the node; we'll then fall through to the rest of the fetch
